@@ -179,6 +179,71 @@ let lane_msgid args =
       String.concat "," (List.rev !out)
   | _ -> "BAD-ARGS"
 
+(* ---- search streams (C10) and the paging adapter (C16) ---- *)
+let parse_sitem (t : string) : sitem =
+  let rest = String.sub t 1 (String.length t - 1) in
+  match t.[0] with
+  | 'e' -> IEntry (nat_of_int (int_of_string rest))
+  | 'i' -> IInter (nat_of_int (int_of_string rest))
+  | 'r' -> IRef (List.map bytes_of_hex (String.split_on_char '+' rest))
+  | 'd' -> (match String.split_on_char '.' rest with
+            | [rc; refs; nc] -> IDone ({ rc0 = n_of_decimal rc; res_refs = (if refs = "~" then [] else List.map bytes_of_hex (String.split_on_char '+' refs)); res_ctrls = [] },
+                                       List.init (int_of_string nc) (fun k -> nat_of_int k))
+            | _ -> failwith "done item")
+  | _ -> failwith "sitem"
+let show_result (r : result) = Printf.sprintf "res(%s,[%s],%d)" (decimal_of_n r.rc0) (String.concat "," (List.map hex_of_bytes r.res_refs)) (List.length r.res_ctrls)
+let show_sitem = function IEntry t -> Printf.sprintf "e%d" (int_of_nat t) | IInter t -> Printf.sprintf "i%d" (int_of_nat t)
+  | IRef us -> "r" ^ String.concat "+" (List.map hex_of_bytes us) | IDone _ -> "DONE"
+let lane_stream args =
+  match args with
+  | [mode; items; calls] ->
+      let its = List.map parse_sitem (String.split_on_char ',' items) in
+      if mode = "s" then begin
+        let (es, r) = search its in
+        Printf.sprintf "entries=[%s] %s" (String.concat "," (List.map show_sitem es)) (show_result r)
+      end else begin
+        let s0 = start its (mode = "a") true in
+        let cs = List.init (String.length calls) (fun i -> match calls.[i] with 'n' -> CNext | 'f' -> CFinish | _ -> CState) in
+        let outs = run model_step s0 cs in
+        String.concat " " (List.map (function
+          | ONext (NSome it) -> show_sitem it | ONext NNone -> "none" | ONext NErr -> "err" | ONext NPanic -> "panic" | ONext NPending -> "pending"
+          | OFinish r -> show_result r
+          | OState st -> (match st with Fresh -> "st:fresh" | Active -> "st:active" | Done -> "st:done" | Closed -> "st:closed" | SError0 -> "st:error")) outs)
+      end
+  | _ -> "BAD-ARGS"
+let lane_paged args =
+  match args with
+  | [size; uc; pages] ->
+      let user = (if String.contains uc 'P' then [CPaged (n_of_int 5, [])] else []) @
+                 List.init (int_of_string (String.concat "" (List.filter (fun x -> x <> "P") (List.map (String.make 1) (List.of_seq (String.to_seq (String.sub uc 1 (String.length uc - 1)))))))) (fun k -> COther (nat_of_int k)) in
+      let parse_page (p : string) : page =
+        let parts = String.split_on_char ',' p in
+        let items = List.filter (fun x -> x.[0] <> 'd') parts and d = List.find (fun x -> x.[0] = 'd') parts in
+        let it x = let k = nat_of_int (int_of_string (String.sub x 1 (String.length x - 1))) in (match x.[0] with 'e' -> Entry k | 'r' -> Ref k | _ -> Inter k) in
+        (match String.split_on_char '.' (String.sub d 1 (String.length d - 1)) with
+         | [rc; ck; no] ->
+             let others = List.init (int_of_string no) (fun k -> COther (nat_of_int (100 + k))) in
+             let cs = (if ck = "none" then [] else [CPaged (n_of_int 0, bytes_of_hex ck)]) @ others in
+             { p_items = List.map it items; p_result = { rc1 = n_of_decimal rc; ctrls = cs } }
+         | _ -> failwith "page result") in
+      let pgs = List.map parse_page (String.split_on_char ';' pages) in
+      let params = nat_of_int 7 in
+      (match start0 params user (n_of_decimal size) pgs with
+       | None -> "rejected"
+       | Some s0 ->
+           let total = List.fold_left (fun a p -> a + List.length p.p_items + 1) 2 pgs in
+           let (items, s') = drain1 (nat_of_int total) s0 in
+           let show_it = function Entry k -> Printf.sprintf "e%d" (int_of_nat k) | Ref k -> Printf.sprintf "r%d" (int_of_nat k) | Inter k -> Printf.sprintf "i%d" (int_of_nat k) in
+           let show_req (q : request) =
+             let (sz, ck) = (match List.find_opt (function CPaged _ -> true | _ -> false) q.q_ctrls with Some (CPaged (sz, ck)) -> (decimal_of_n sz, hex_of_bytes ck) | _ -> ("none", "none")) in
+             Printf.sprintf "%s/%s/%d/%d" sz ck (List.length (List.filter (function COther _ -> true | _ -> false) q.q_ctrls)) (if q.q_params = params then 1 else 0) in
+           let fin = match s'.res1 with
+             | Some r -> Printf.sprintf "rc=%s paged_in_final=%d others=%d" (decimal_of_n r.rc1) (if List.exists is_paged r.ctrls then 1 else 0) (List.length (List.filter (fun c -> not (is_paged c)) r.ctrls))
+             | None -> "nores" in
+           Printf.sprintf "items=[%s] end=%s %s wire=[%s]" (String.concat "," (List.map show_it items))
+             (match s'.st0 with Done0 -> "done" | Active0 -> "active" | SError1 -> "error") fin (String.concat ";" (List.map show_req s'.wire)))
+  | _ -> "BAD-ARGS"
+
 let dispatch lane args =
   match lane with
   | "parse" -> lane_parse args
@@ -196,6 +261,8 @@ let dispatch lane args =
   | "req" -> lane_req args
   | "conn" -> Connrun.run_script args
   | "msgid" -> lane_msgid args
+  | "stream" -> lane_stream args
+  | "paged" -> lane_paged args
   | "ctl" -> lane_ctl args
   | "exop" -> lane_exop args
   | "cresp" -> lane_cresp args
